@@ -626,7 +626,7 @@ COMPONENT_NAMES = ["a", "b", "name", "Full Name", "x1", "Monthly Salary", "id", 
 
 
 def gen_typed(src, depth=0):
-    kinds = [(7, "simple"), (1, "nil")]
+    kinds = [(7, "simple"), (1, "nil"), (1, "nil-other")]
     if depth < 3:
         kinds += [(2, "list"), (2, "ctx")]
     k = src.weighted(kinds)
@@ -634,6 +634,9 @@ def gen_typed(src, depth=0):
         return gen_simple(src)
     if k == "nil":
         return ["nil"]
+    if k == "nil-other":
+        # the other spellings of null the format has: a nil list (<list xsi:nil="true"/>), a nil simple value that still names its type
+        return [src.choice(["nill", "nilt"])]
     if k == "list":
         return ["list", [gen_typed(src, depth + 1) for _ in range(src.int(0, 4))]]
     names = src.sample(COMPONENT_NAMES, src.int(0, 4))
@@ -1203,7 +1206,8 @@ def judge_faults(ctx, case, _resp):
 # ---------------------------------------------------------------------------------------------------------------------
 
 def gen_concurrent(src):
-    return {"readers": src.int(2, 6), "evals": src.int(30, 120), "deploys": src.int(5, 40), "tck": src.bool(0.5)}
+    return {"readers": src.int(2, 6), "evals": src.int(30, 120), "deploys": src.int(5, 40), "tck": src.bool(0.5),
+            "writer": src.choice(["deploy", "refused-add", "mixed", "big-refused-add"])}
 
 
 def judge_concurrent(ctx, case, _resp):
@@ -1245,23 +1249,36 @@ def judge_concurrent(ctx, case, _resp):
         t.start()
     w = Http(srv.port)
     deploy_bad = None
-    for _ in range(case["deploys"]):
-        rec = w.request("POST", "/definitions/deploy", body=None, headers=JSON_CT)
-        if "status" not in rec or rec["status"] != 200:
-            deploy_bad = rec
-            break
+    writer = case.get("writer", "deploy")
+    # requests of the writing client that leave the workspace as it is: deploy (rebuilds the same evaluators), and the add of a model
+    # whose namespace is stored already - refused, "a rejected add changes nothing" (also with a long comment appended to the
+    # definitions, so that reading the request takes a while)
+    add_a = jbody({"content": b64(CM.XML["A"])})
+    add_big = jbody({"content": b64(CM.XML["A"] + "<!-- " + "padding " * 40000 + "-->")})
+    for i in range(case["deploys"]):
+        if writer == "deploy" or (writer == "mixed" and i % 2 == 0):
+            rec = w.request("POST", "/definitions/deploy", body=None, headers=JSON_CT)
+            if "status" not in rec or rec["status"] != 200:
+                deploy_bad = rec
+                break
+        else:
+            rec = w.request("POST", "/definitions/add", body=add_big if writer == "big-refused-add" else add_a, headers=JSON_CT)
+            body = rec.get("body", b"").decode("utf-8", "replace") if "body" in rec else repr(rec)
+            if '"errors"' not in body:
+                deploy_bad = {"add of a stored namespace was not refused": body[:300]}
+                break
     w.close()
     for t in threads:
         t.join(timeout=120)
-    ctx.note(key=_h(case), nontrivial=True, labels=["concurrent", "readers:%d" % case["readers"]],
+    ctx.note(key=_h(case), nontrivial=True, labels=["concurrent", "readers:%d" % case["readers"], "writer:" + writer],
              sample={"readers": case["readers"], "evaluations per reader": case["evals"], "deploys": case["deploys"]})
     if any(t.is_alive() for t in threads):
         raise Inconclusive("C18 concurrent: a reader did not finish within 120 s")
     if deploy_bad is not None:
         return Fail("C18/concurrent-deploy-failed", "a /definitions/deploy issued while evaluations were running was answered %r" % (deploy_bad,))
     if wrong:
-        return Fail("C18/concurrent-evaluation-wrong-answer", "while another client kept re-deploying the SAME definitions, evaluating %s/%s was answered %s "
-                    "(no sequential order of the requests gives that answer)" % (wrong[0][0], CM.INVOCABLE, wrong[0][1]))
+        return Fail("C18/concurrent-evaluation-wrong-answer", "while another client kept sending requests that leave the workspace as it is (%s), evaluating %s/%s "
+                    "was answered %s (no sequential order of the requests gives that answer)" % (writer, wrong[0][0], CM.INVOCABLE, wrong[0][1]))
     return None
 
 
